@@ -123,8 +123,10 @@ def compile_gen(routes_v):
     return res, log
 
 
-def run_go(lines, wiring="default", name="api", timeout=900):
-    """run case lines through the real code; returns (list of [kind, cid, obs...] | None, output)"""
+def run_go_partial(lines, wiring="default", name="api", timeout=900):
+    """run case lines through the real code.  Returns (results, output, crash): results = [[kind, cid, obs...], ...] for
+    every line the driver started (the driver flushes each observation as soon as its op is done), crash = None when the
+    driver finished, else {"line": i, "op": j, "token": the op that was being served when the test process exited}."""
     wd = vlib.workdir()
     inp, outp = os.path.join(wd, name + ".in"), os.path.join(wd, name + ".out")
     open(inp, "w").write("\n".join(lines) + "\n")
@@ -133,14 +135,31 @@ def run_go(lines, wiring="default", name="api", timeout=900):
     rc, out = vlib.go_test(".", OVERLAY, "^TestVerifApi$", {"VERIF_IN": inp, "VERIF_OUT": outp, "VERIF_API_WIRING": wiring},
                            timeout=timeout)
     if not os.path.exists(outp):
-        return None, out
+        return None, out, None
+    raw = open(outp).read()
+    parts = raw.split("\n")
+    partial = parts.pop() if not raw.endswith("\n") else (parts.pop() and None)
     res = []
-    for l in open(outp).read().split("\n"):
+    for l in parts + ([partial] if partial else []):
         f = l.split(" ")
         if len(f) >= 2:
-            res.append([f[0], f[1]] + [parse_obs(t) for t in f[2:]])
-    if rc != 0 or len(res) != len(lines):
-        return None, out + "\n[driver produced %d of %d result lines]" % (len(res), len(lines))
+            res.append([f[0], f[1]] + [parse_obs(t) for t in f[2:] if t])
+    crash = None
+    if partial and len(res) <= len(lines):
+        ci = len(res) - 1
+        toks = lines[ci].split(" ")[2:]
+        oi = len(res[ci]) - 2
+        crash = {"line": ci, "op": oi, "token": toks[oi] if oi < len(toks) else None, "go_output_tail": out[-1500:]}
+    elif rc != 0 or len(res) != len(lines):
+        return None, out + "\n[driver produced %d of %d result lines]" % (len(res), len(lines)), None
+    return res, out, crash
+
+
+def run_go(lines, wiring="default", name="api", timeout=900):
+    """as run_go_partial, but an unfinished run counts as no result: (results | None, output)"""
+    res, out, crash = run_go_partial(lines, wiring, name, timeout)
+    if res is None or crash:
+        return None, out + ("\n[driver exited while serving %s]" % crash["token"][:200] if crash else "")
     return res, out
 
 
@@ -277,18 +296,28 @@ def session_requests(rng, quick):
     return reqs
 
 
+PRESENT_WRONG = [b for n, b in BAD_BASIC if n in ("wrong-pass", "empty-pass", "wrong-user")]   # an Authorization header is present, but wrong
+OTHER_BAD = [b for n, b in BAD_BASIC if n not in ("wrong-pass", "empty-pass", "wrong-user")]
+# requests whose handler, if it were reached, ends the process (log.Fatalf in handleQuit; nil raft transport -> panic ->
+# exitOnRecover): issued last, so that everything else has been observed when a fall-through kills the node
+FATAL_IF_REACHED = [("POST", "/quit"), ("POST", "/raft/AppendEntries")]
+
+
 def private_requests(rng, quick):
-    reqs = []
-    if quick:
-        for i, (m, p) in enumerate(PRIVATE_ROUTES):        # ~24 wrong-credential requests (each backs off up to ~1 s)
-            reqs.append(R(m, p, "-", BAD_BASIC[i % len(BAD_BASIC)][1], ""))
-    else:
-        for m, p in PRIVATE_ROUTES:
-            for _, b in BAD_BASIC:
-                reqs.append(R(m, p, "-", b, ""))
+    """every private route x a present-but-wrong Basic header (wrong password, empty password, wrong user) + one of the
+    other variants (none, case-changed user, truncated password, swapped) in the quick tier, all of them in thorough."""
+    reqs, last = [], []
+    for i, (m, p) in enumerate(PRIVATE_ROUTES):
+        bad = PRESENT_WRONG + ([OTHER_BAD[i % len(OTHER_BAD)]] if quick else OTHER_BAD)
+        (last if (m, p) in FATAL_IF_REACHED else reqs).extend(R(m, p, "-", b, "") for b in bad)
     for m, p in SAFE_WITH_PASSWORD:
         reqs.append(R(m, p, "-", "ok", ""))
-    return reqs
+    # requests that would change state if the handler were reached without the password
+    for b in PRESENT_WRONG + ["-"]:
+        reqs.append(R("POST", "/kill?session={2:d}", "-", b, ""))
+    reqs.append("F:%s:%s:bad" % (hx("1"), hx(BASE_CFG.replace("verifoppw", "changed-without-password"))))
+    reqs.append("F:%s:%s:none" % (hx("1"), hx(BASE_CFG.replace("verifoppw", "changed-without-password"))))
+    return reqs + last
 
 
 def setup_ops():
@@ -391,10 +420,49 @@ def monitor_request(o):
         u, p = o["ba"].split(".")
         ok = (unhx(u) == b"robustirc" and unhx(p) == PW.encode())
     if not ok:
+        how = "no Authorization header" if o["ba"] == "!" else "wrong Basic credentials (user %r)" % unhx(o["ba"].split(".")[0]).decode("latin-1")
         if status != 401 or effects:
             seg = "/".join(path.split("/")[:3])
-            return ("noauth:" + seg, "%s %s without the network password answered %d (%d bytes) %s instead of 401" % (o["m"], path, status, int(o.get("blen", 0)), effects))
+            return ("noauth:" + seg, "%s %s with %s answered %d (%d bytes) %s instead of a bare 401" % (o["m"], path, how, status, int(o.get("blen", 0)), effects))
+        if cls != "unauthorized":
+            # status 401, but the body is not exactly what an unauthenticated request gets: a handler wrote to it
+            return ("unauthorized-body-not-bare", "%s %s with %s answered 401 with a %d-byte body instead of 'Unauthorized': handler output was appended"
+                    % (o["m"], path, how, int(o.get("blen", 0))))
     return None
+
+
+def monitor_config_post(tok, o):
+    """F op (POST /config) issued with wrong / without credentials: must be a bare 401 and change nothing"""
+    cred = tok.split(":")[3] if tok.count(":") >= 3 else "ok"
+    if cred == "ok" or "status" not in o:
+        return None
+    if o["status"] != "401" or o["class"] != "unauthorized" or o["grew"] != "0":
+        return ("noauth:/config", "POST /config with %s answered %s (%s), raft log grew by %s, revision now %s"
+                % ("wrong Basic credentials" if cred == "bad" else "no Authorization header", o["status"], o["class"], o["grew"], o.get("rev")))
+    return None
+
+
+def judge(tok, o):
+    """the monitors, by kind of op"""
+    if o.get("op") == "R" and "status" in o:
+        return monitor_request(o)
+    if o.get("op") == "W" and "status" in o:
+        return monitor_probe(o)
+    if o.get("op") == "F":
+        return monitor_config_post(tok, o)
+    return None
+
+
+def private_without_password(tok):
+    """is this op a request to a non-public path that does not carry the network password?"""
+    a = tok.split(":")
+    if a[0] == "W":
+        return not unhx(a[1]).decode("latin-1").startswith(PUBLIC)
+    if a[0] == "F":
+        return a[3] != "ok"
+    if a[0] == "R":
+        return not unhx(a[2]).decode("latin-1").startswith(PUBLIC) and a[4] != "ok"
+    return False
 
 
 def monitor_probe(o):
@@ -406,15 +474,18 @@ def monitor_probe(o):
 
 
 def minimise(ck, wiring, setup, tok):
-    """smallest history on which this request still fails the monitor: no setup at all, else the full setup"""
+    """smallest history on which this request still fails the monitor (or still ends the process): no setup at all,
+    the node with its configuration, the full setup, the full setup with the owner's long poll"""
     for ops in (["N"], ["N"] + setup[1:2], setup, setup + [WATCH]):
-        res, _ = run_go(["api min " + " ".join(ops + [tok])], wiring, "min")
+        res, _, crash = run_go_partial(["api min " + " ".join(ops + [tok])], wiring, "min")
         if not res:
             continue
+        if crash:
+            if crash["token"] == tok:
+                return ops + [tok], {"op": tok[:1], "process_exited": True}
+            continue
         o = res[0][-1]
-        if o.get("op") == "R" and "status" in o and monitor_request(o):
-            return ops + [tok], o
-        if o.get("op") == "W" and "status" in o and monitor_probe(o):
+        if judge(tok, o):
             return ops + [tok], o
     return setup + [tok], None
 
@@ -460,14 +531,14 @@ def run(ck, replay):
         for _ in range(150 if quick else 5000):
             n = ck.rng.randint(1, 8)
             uints.append("".join(ck.rng.choice("0011223789abfxXoOb_+-gG ") for _ in range(n)))
-        lines = ["api matrix " + " ".join(setup + probes + reqs), "uint u " + " ".join("U:" + hx(u) for u in uints)]
+        lines = ["uint u " + " ".join("U:" + hx(u) for u in uints), "api matrix " + " ".join(setup + probes + reqs)]
         corpus = os.path.join(vlib.ROOT, "corpus", "C11")
         if os.path.isdir(corpus):
             for fn in sorted(os.listdir(corpus)):
                 if fn.endswith(".case"):
                     lines += [l for l in open(os.path.join(corpus, fn)).read().split("\n") if l and not l.startswith("#")]
     t0 = time.time()
-    res, goout = run_go(lines, wiring, "c11")
+    res, goout, crash = run_go_partial(lines, wiring, "c11")
     ck.notes["go_wall_s"] = round(time.time() - t0, 1)
     if res is None:
         ck.violation("tie-broken:go-driver", {"what": "Go correspondence driver did not build/run against the current tree",
@@ -500,8 +571,35 @@ def run(ck, replay):
                     rv = None
                 if ("!" if rv is None else str(rv)) != o["v"]:
                     ck.notes.setdefault("ref_parse_uint_disagreements", []).append([o["s"], o["v"], rv])
+            elif o["op"] == "F":
+                toks = lines[ci].split(" ")[2:]
+                why = monitor_config_post(toks[oi] if oi < len(toks) else "", o)
+                if why:
+                    monfail.append((ci, oi, why))
             elif "panic" in o or "err" in o:
                 monfail.append((ci, oi, ("driver-op-failed", "op %s failed in the driver: %s" % (o["op"], o))))
+    crash_violation = None
+    if crash:
+        # the test process (= the node) exited while an op was being served; everything after it was not run
+        ck.notes["driver_exited_while_serving"] = {"line": crash["line"], "op_index": crash["op"], "token": (crash["token"] or "")[:300]}
+        tok = crash["token"]
+        if tok and private_without_password(tok):
+            a = tok.split(":")
+            path = unhx(a[1] if a[0] == "W" else a[2]).decode("latin-1") if a[0] in ("W", "R") else "/config"
+            ops = lines[crash["line"]].split(" ")[2:2 + crash["op"]] + [tok]
+            if not replay:
+                ops, _ = minimise(ck, wiring, setup, tok)
+            crash_violation = ("noauth:" + "/".join(path.split("?")[0].split("/")[:3]) + ":process-exit",
+                               {"what": "%s %s without the network password made the node process exit (a handler behind DispatchPrivate was reached: "
+                                        "log.Fatalf in handleQuit, or a handler panic caught by exitOnRecover)" % (a[1] if a[0] == "R" else "GET", path),
+                                "cases": ["api replay " + " ".join(ops)], "go_output_tail": crash["go_output_tail"][-800:],
+                                "expected": "401 Unauthorized without effects", "wiring": wiring,
+                                "not_run": "the ops after this one in the same run (%d) were not executed" % (len(lines[crash["line"]].split(" ")) - 3 - crash["op"]),
+                                "how_to_replay": "bin/check C11 --replay <this file>"})
+        else:
+            ck.violation("tie-broken:go-driver", {"what": "the Go correspondence driver exited while serving an op that is not an unauthenticated request",
+                                                  "token": (tok or "")[:500], "output": goout[-3000:], "obligation": "correspondence apidrv (package main)",
+                                                  "cases": [lines[crash["line"]]]}, concrete=False)
     mism = []
     if getattr(ck, "model_ok", False):
         mout = vlib.run_model("\n".join(mlines_in) + "\n") if mlines_in else []
@@ -542,9 +640,12 @@ def run(ck, replay):
             ops, o2 = minimise(ck, wiring, setup, tok)
             o2 = o2 or res[ci][2 + oi]
         ck.violation(sig, {"what": text, "cases": ["api replay " + " ".join(ops)], "observed": {k: v for k, v in o2.items() if k not in ("ss",)},
-                           "expected": "401 Unauthorized without effects" if sig.startswith("noauth") else "refusal without effects / handling only with the target session's secret",
+                           "expected": "a bare 401 Unauthorized without effects" if sig.startswith(("noauth", "unauthorized")) else "refusal without effects / handling only with the target session's secret",
                            "wiring": wiring, "scanner_served_mux": ck.notes["scanner"].get("served_mux") if facts else None,
                            "how_to_replay": "bin/check C11 --replay <this file>"}, concrete=True)
+    if crash_violation:
+        ck.violation(crash_violation[0], crash_violation[1], concrete=True)
+        monfail = monfail or [(crash["line"], crash["op"], (crash_violation[0], ""))]
     if mism and not monfail:
         k, m = mism[0]
         ci, oi = owner[k]
